@@ -187,7 +187,10 @@ def run(repo, rep, tier):
     rep.saw(gr)
     chg = None
     for n in walk_no_nested(gr):
-        if isinstance(n, ast.Compare) and len(n.ops) == 1 and isinstance(n.ops[0], ast.In) and isinstance(n.comparators[0], ast.List) and unparse(n.left) == 'n':
+        # the "change, don't delete" names: a membership test of a name against a literal list / tuple of names (wherever the literal lives: phase B gives a
+        # table moved to class level back to the function)
+        if isinstance(n, ast.Compare) and len(n.ops) == 1 and isinstance(n.ops[0], (ast.In, ast.NotIn)) and isinstance(n.comparators[0], (ast.List, ast.Tuple)) and isinstance(n.left, ast.Name) \
+                and n.comparators[0].elts and all(isinstance(e, ast.Constant) and isinstance(e.value, str) and '-' in e.value for e in n.comparators[0].elts):
             chg = n
     if chg is None:
         raise AnalysisError('anchor vanished: chg-set membership test in get_recommendations')
